@@ -275,6 +275,7 @@ func (t CollectionPath) Of(i Item) Item {
 			it = t.ofActor(a)
 			return nil
 		})
+		return it
 	}
 	OnObject(i, func(o *Object) error {
 		it = t.ofObject(o)
